@@ -83,6 +83,12 @@ def jit_is_null(x):
             return False
 
         return is_null
+    elif isinstance(x, (nb.types.NPDatetime, nb.types.NPTimedelta)):
+
+        def is_null(x):
+            return np.isnat(x)
+
+        return is_null
 
 
 @nb.njit(parallel=True, cache=True)
